@@ -842,6 +842,13 @@ func factsC17() {
 		ia := idx(evs, ir+1, "assign", `^u\.`+field+` = u\.`+field+` \|\| remaining == 0$`)
 		iu := idx(evs, 0, "call", `^u\.sessionsM\.Unlock\(\)`)
 		closeRetires = il >= 0 && ir > il && ia > ir && iu > ia && evs[ia].depth == 0
+		if !closeRetires && il >= 0 && ir > il {
+			// the same written as a conditional: `if remaining == 0 { u.<flag> = true }` (nothing else in the branch)
+			if is := g14if(cs, `^remaining == 0$`); is != nil && is.Else == nil && len(is.Body.List) == 1 && show(is.Body.List[0]) == "u."+field+" = true" {
+				iIf := g19ifIdx(evs, `^remaining == 0$`)
+				closeRetires = iIf > ir && iIf < iu
+			}
+		}
 	}
 	boolFact(g, "closeSessionRetiresWhenEmpty", closeRetires, "CloseSession sets the retired flag, in the section that counts the remaining sessions, when none remains")
 	boolFact(g, "terminateRetiresFirst", marks, "TerminateActiveUser sets the flag under sessionsM before (or closeAllSessions sets it while) the sessions are closed")
